@@ -131,11 +131,13 @@ pub struct Knobs {
     pub ice_disconnect_grace: Option<Duration>,
     pub ice_connection_timeout: Option<Duration>,
     pub sctp_max_buffered: Option<usize>,
+    /// (heartbeat interval, max heartbeat failures, max association retransmits)
+    pub sctp_heartbeat: Option<(Duration, u32, u32)>,
     /// runtime for every rustrtc task of endpoint P (resource measurement per endpoint)
     pub p_runtime: Option<tokio::runtime::Handle>,
 }
 impl Default for Knobs {
-    fn default() -> Self { Knobs { ice_disconnect_threshold: None, ice_disconnect_grace: None, ice_connection_timeout: None, sctp_max_buffered: None, p_runtime: None } }
+    fn default() -> Self { Knobs { ice_disconnect_threshold: None, ice_disconnect_grace: None, ice_connection_timeout: None, sctp_max_buffered: None, sctp_heartbeat: None, p_runtime: None } }
 }
 
 fn free_tcp_port() -> u16 {
@@ -169,6 +171,7 @@ pub fn rtc_config(c: &Cfg, is_p: bool, k: &Knobs) -> RtcConfiguration {
     if let Some(d) = k.ice_disconnect_grace { r.ice_disconnect_grace = d; }
     if let Some(d) = k.ice_connection_timeout { r.ice_connection_timeout = d; }
     if let Some(n) = k.sctp_max_buffered { r.sctp_max_buffered_amount = n; }
+    if let Some((d, f, a)) = k.sctp_heartbeat { r.sctp_heartbeat_interval = d; r.sctp_max_heartbeat_failures = f; r.sctp_max_association_retransmits = a; }
     if is_p && let Some(h) = &k.p_runtime { r.runtime_handle = Some(h.clone()); }
     r
 }
